@@ -121,9 +121,7 @@ def build(qj):
             return q.Measurement(fx(qj[1])) if qj[2] is None else q.Measurement(fx(qj[1]), fx(qj[2]))
         if t == "repeated":
             xs = [fx(h) for h in qj[1]]
-            if qj[3] == "ndarray":
-                import numpy as np
-                xs = np.array(xs)
+            xs = make_container(xs, qj[3])
             e = qj[2]
             if e is None:
                 return q.Measurement(xs)
@@ -193,3 +191,115 @@ def gen_offsets(rng):
     offs = [o1, -o1, o2, -o2]
     rng.shuffle(offs)
     return offs
+
+
+# ---- containers of readings: lists, numpy arrays of several dtypes, lists of numpy scalars, mixed int / float lists ----
+DTYPES = {"ndarray": "float64", "f64": "float64", "f32": "float32", "f16": "float16",
+          "i64": "int64", "i32": "int32", "i16": "int16"}
+CONTAINERS = ["list", "ndarray", "f32", "f16", "i64", "i32", "i16", "npscalars", "mixed"]
+SCALAR_CYCLE = ["float64", "float32", "int64", "float16", "int16"]
+
+
+def representable(x, dtype):
+    """the double x is a finite number of the numpy dtype"""
+    import numpy as np
+    with warnings.catch_warnings():
+        warnings.simplefilter("ignore")
+        if dtype.startswith("int"):
+            if not float(x).is_integer():
+                return False
+            info = np.iinfo(dtype)
+            return info.min <= x <= info.max and abs(x) <= 2.0 ** 52
+        y = float(np.dtype(dtype).type(x))
+    return y == x and not math.isinf(y)
+
+
+def make_container(xs, container):
+    """the readings (doubles, representable in the container's number type) in the requested container"""
+    import numpy as np
+    if container == "list":
+        return list(xs)
+    if container in DTYPES:
+        dt = DTYPES[container]
+        if not all(representable(x, dt) for x in xs):
+            raise ValueError("readings not representable as " + dt)
+        return np.array([int(x) for x in xs] if dt.startswith("int") else xs, dtype=dt)
+    if container == "npscalars":            # a list of numpy scalars of several types, deterministic in the position
+        out = []
+        for i, x in enumerate(xs):
+            dt = SCALAR_CYCLE[i % len(SCALAR_CYCLE)]
+            if not representable(x, dt):
+                dt = "float64"
+            out.append(np.dtype(dt).type(int(x) if dt.startswith("int") else x))
+        return out
+    if container == "mixed":                # Python ints where the reading is a whole number, floats otherwise
+        return [int(x) if float(x).is_integer() and i % 3 != 2 else float(x) for i, x in enumerate(xs)]
+    raise ValueError(container)
+
+
+def cast_readings(xs, container):
+    """the readings as they are after rounding into the container's number type (what the implementation is
+    handed), or None when that is not finite / has no spread"""
+    import numpy as np
+    if container not in DTYPES or DTYPES[container] == "float64":
+        return list(xs)
+    dt = DTYPES[container]
+    with warnings.catch_warnings():
+        warnings.simplefilter("ignore")
+        if dt.startswith("int"):
+            ys = [float(round(x)) for x in xs]
+            if not all(representable(y, dt) for y in ys):
+                return None
+        else:
+            ys = [float(np.dtype(dt).type(x)) for x in xs]
+    if not all(finite(y) for y in ys) or len(set(ys)) < 2:
+        return None
+    return ys
+
+
+def gen_typed_readings(rng, container, n=None):
+    """readings for a narrow number type, biased to the precision limit of the type (2^24 for float32, 2^11 for
+    float16, the top of the range for small ints); always returned as they are in that type"""
+    n = n or rng.choice([2, 3, 3, 4, 5, 6, 8, 12])
+    for _ in range(40):
+        u = rng.random()
+        if container == "f32":
+            if u < 0.45:
+                base = 2.0 ** 24 - rng.randrange(0, 7)
+                xs = [base + rng.randrange(0, 6) for _ in range(n)]
+            elif u < 0.75:
+                base = float(rng.choice([20000, 4096, 100000, -65536]))
+                xs = [base + dyadic(rng, 5, 6) for _ in range(n)]
+            else:
+                xs = [dyadic(rng, 8, 6) for _ in range(n)]
+        elif container == "f16":
+            if u < 0.45:
+                base = 2048.0 - rng.randrange(0, 9)
+                xs = [base + rng.randrange(0, 10) for _ in range(n)]
+            elif u < 0.75:
+                xs = [float(rng.choice([100, 512, -1000])) + dyadic(rng, 4, 1) for _ in range(n)]
+            else:
+                xs = [dyadic(rng, 5, 3) for _ in range(n)]
+        elif container == "i16":
+            base = rng.choice([0, 0, 1000, 32760, -32760])
+            xs = [float(max(-32768, min(32767, base + rng.randrange(-9, 8)))) for _ in range(n)]
+        elif container == "i32":
+            base = rng.choice([0, 10 ** 6, 2 ** 31 - 20, -(2 ** 31) + 20, 2 ** 24])
+            xs = [float(base + rng.randrange(-12, 13)) for _ in range(n)]
+        elif container == "i64":
+            base = rng.choice([0, 10 ** 9, 2 ** 32, -(2 ** 31) - 77, 2 ** 24 + 1])     # beyond ~2^33 float64 itself is ill-conditioned at 1e-9
+            xs = [float(base + rng.randrange(-30, 31)) for _ in range(n)]
+        else:
+            xs = gen_readings(rng, n=n, kind=rng.choice(["small", "offset", "fine", "wide"]))
+        ys = cast_readings(xs, container)
+        if ys is not None:
+            return ys
+    return [1.0, 2.0] + [3.0] * (n - 2)
+
+
+def pick_container(rng, xs, narrow=0.4):
+    """a container in which the given readings are exactly representable"""
+    if rng.random() >= narrow:
+        return rng.choice(["list", "ndarray"])
+    ok = [c for c in CONTAINERS if c not in DTYPES or all(representable(x, DTYPES[c]) for x in xs)]
+    return rng.choice(ok)
